@@ -435,19 +435,21 @@ fn run_case(rng: &mut Rng) -> (Outcome, Value) {
     }
     // entries against the rule
     let batches = [0u32, 1, 1, 1_000_000];
-    let nent = 2 + rng.below(5);
+    // hotspot rules keep per-value state in a bounded cache: longer histories with more values than
+    // the cache holds (legal: params_max_capacity 1 or 2) and exits in any order
+    let nent = if fam == "hotspot" && rng.chance(1, 2) { 4 + rng.below(9) } else { 2 + rng.below(5) };
     let mut open = vec![];
     for k in 0..nent {
         let batch = *rng.pick(&batches);
         let args: Option<Vec<String>> = match rng.below(4) {
             0 => None,
             1 => Some(vec![]),
-            2 => Some(vec!["a".into()]),
+            2 => Some(vec![(*rng.pick(&["a", "b", "c"])).to_string()]),
             _ => Some(vec!["a".into(), "b".into(), "".into(), "d".into(), "a".into()]),
         };
         let att: Option<HashMap<String, String>> = if rng.chance(1, 3) {
             let mut m = HashMap::new();
-            m.insert("k".to_string(), (*rng.pick(&["a", "b"])).to_string());
+            m.insert("k".to_string(), (*rng.pick(&["a", "b", "c"])).to_string());
             Some(m)
         } else {
             None
@@ -475,7 +477,7 @@ fn run_case(rng: &mut Rng) -> (Outcome, Value) {
         }
         VClock::advance_ms(*rng.pick(&[0u64, 1, 600, 1500]));
         if rng.chance(1, 2) && !open.is_empty() {
-            let e = open.remove(0);
+            let e = open.remove(rng.below(open.len() as u64) as usize);
             if rng.chance(1, 3) {
                 e.set_err(sentinel_core::Error::msg("biz"));
             }
@@ -488,6 +490,48 @@ fn run_case(rng: &mut Rng) -> (Outcome, Value) {
     for e in open {
         if let Err(p) = common::catch(|| e.exit()) {
             fail!(format!("panic/{fam}/exit/{}", common::panic_site(&p)), format!("exit panicked: {p}"), true);
+        }
+    }
+    // hotspot rules keep per-value state in a bounded cache: churn it with more distinct values than a
+    // small (legal) params_max_capacity holds, several entries open at once, exits in any order
+    if let AnyRule::Hot(ref h) = rule {
+        if valid && !cleared && rng.chance(1, 2) {
+            let mut open = vec![];
+            for k in 0..(6 + rng.below(10)) {
+                let v = (*rng.pick(&["a", "b", "c", "d"])).to_string();
+                let mut args = vec!["x".to_string(); 4];
+                let idx = if h.param_index >= 0 { h.param_index as usize } else { (4 + h.param_index).max(0) as usize };
+                if idx < 4 {
+                    args[idx] = v.clone();
+                }
+                let mut m = HashMap::new();
+                if !h.param_key.is_empty() {
+                    m.insert(h.param_key.clone(), v.clone());
+                }
+                PROGRESS.fetch_add(1, Ordering::SeqCst);
+                let r = common::catch(|| EntryBuilder::new(res.clone()).with_args(Some(args.clone())).with_attachments(Some(m.clone())).build());
+                out.entries += 1;
+                match r {
+                    Err(p) => fail!(
+                        format!("panic/{fam}/build/valid-rule/{}", common::panic_site(&p)),
+                        format!("cache churn: entry #{k} for value {v:?} (args {args:?}, attachments {m:?}) panicked: {p}"),
+                        true
+                    ),
+                    Ok(Ok(e)) => open.push(e),
+                    Ok(Err(_)) => {}
+                }
+                while open.len() > 3 || (!open.is_empty() && rng.chance(1, 3)) {
+                    let e = open.remove(rng.below(open.len() as u64) as usize);
+                    if let Err(p) = common::catch(|| e.exit()) {
+                        fail!(format!("panic/{fam}/exit/{}", common::panic_site(&p)), format!("cache churn: exit panicked: {p}"), true);
+                    }
+                }
+            }
+            for e in open {
+                if let Err(p) = common::catch(|| e.exit()) {
+                    fail!(format!("panic/{fam}/exit/{}", common::panic_site(&p)), format!("cache churn: exit panicked: {p}"), true);
+                }
+            }
         }
     }
     if let Err(p) = common::catch(clear_all) {
